@@ -297,7 +297,7 @@ def run(c):
             npairs = check_lagoffset(c)
         except Exception as e:
             c.obligation("translator validation", False, "translator", repr(e)[-800:])
-    n = 160 if c.tier == "quick" else 2500
+    n = 160 if c.tier == "quick" else 1000
     cases = corpus_cases() + [gen_case(c.rng, c.tier) for _ in range(n)]
     terms, index = [], []
     for i, case in enumerate(cases):
@@ -306,7 +306,7 @@ def run(c):
             terms.append(t)
     outs = None
     try:
-        outs = lib.coq_eval("c17_cases", PREAMBLE, terms, chunk=40)
+        outs = lib.coq_eval("c17_cases", PREAMBLE, terms, chunk=25, timeout=3000)
     except RuntimeError as e:
         c.obligation("model evaluation", False, "correspondence", str(e)[-1500:])
     by_case = {}
